@@ -47,6 +47,20 @@ chk("C13",
     "stateless explicit enumeration of all bounded inputs; per-kind span-shape predicate on every node",
     "DESIGN.md section 6, C13")
 
+chk("C01",
+    "Every bounded input (and every member of the parametric families) is parsed through both entry points and the statement is checked literally: "
+    "ordering, gap blankness, Source == input range with NUL replaced, 1-based StartLine against an independent line counter, aliasing of the caller's buffer and non-modification of it and of its spare capacity.",
+    COMMON_NOTE + " Streaming is driven with one full read here; other read schedules are C08.",
+    "stateless explicit enumeration of all bounded inputs x 2 entry points against the real parser; tiling/offset/line oracle written from the statement",
+    "DESIGN.md section 6, C01")
+chk("C08",
+    "The real BlockParser is closed with a scripted io.Reader whose every answer (how many bytes, empty read, EOF with or without data, failure with one of two errors, with or without data) is a choice of the explorer. "
+    "For small inputs every partition into reads is explored (no deviation bound); environment faults and, for longer inputs, partitions are explored up to a stated deviation bound. "
+    "Every execution is compared with Parse of the delivered prefix on the full dump (Source, lines, offsets, trees, spans, reference map) and terminal-error persistence is checked on three further calls.",
+    COMMON_NOTE + " Inputs far below the 1 MiB block limit; chunk size of the parser (8 KiB) exceeds every input so the reader alone decides read sizes.",
+    "stateless model checking of the real streaming parser under a controlled environment: exhaustive enumeration of read schedules and reader fault points (deviation-bounded), differential oracle against in-memory parse",
+    "DESIGN.md section 6, C08")
+
 # Reasons for properties not (yet) claimed.
 PENDING = {}
 
